@@ -47,7 +47,7 @@ let parse_op (w : string) : op =
   | ["u+"; nm; t; ttl; rd] -> OUAdd { g_owner = parse_name nm; g_type = num t; g_ttl = num ttl; g_data = parse_rd rd }
   | ["u-"; nm; t; ttl; rd] -> OUDel { g_owner = parse_name nm; g_type = num t; g_ttl = num ttl; g_data = parse_rd rd }
   | ["ux"] -> OUDelAll
-  | ["ub"; _] -> OUBatchDel
+  | ["ub"; tok] -> OUBatchDel (parse_rd tok)
   | ["ua"; tok] -> OUBatchAdd (soa_ttl, parse_rd tok)
   | ["uf"; tok] -> OUFin (soa_ttl, parse_rd tok)
   | ["ud"] -> OUDrop
@@ -63,7 +63,7 @@ let parse_op (w : string) : op =
   | _ -> failwith ("bad op " ^ w)
 let err_word e = match int_of_n e with
   | 1 -> "CutAtApex" | 2 -> "CnameAtApex" | 3 -> "Finished" | 4 -> "NotAllowed" | 5 -> "IllegalZoneCut"
-  | 6 -> "IllegalRecord" | 7 -> "IllegalCname" | 8 -> "MultipleCnames" | 9 -> "ZoneErrors" | _ -> "?"
+  | 6 -> "IllegalRecord" | 7 -> "IllegalCname" | 8 -> "MultipleCnames" | 9 -> "ZoneErrors" | 10 -> "SoaMismatch" | _ -> "?"
 let set_show (l : string list) : string =
   let l = List.sort_uniq compare l in
   if l = [] then "-" else String.concat "," l
